@@ -375,10 +375,37 @@ pub fn run_seq(pc: &PropCfg, knobs: &Knobs, env: &Env, mut src: Source, stats: &
     };
     let mut pre_snap_tree = Tree::default();
     stats.runs += 1;
-    while i < total {
-        let op = match &mut src {
-            Source::Gen { gen, rng, .. } => gen.next_op(&m, rng),
-            Source::Replay(o) => o[i].clone(),
+    if crate::TRACE.load(std::sync::atomic::Ordering::Relaxed) {
+        use std::io::Write;
+        println!("T0 {}", serde_json::json!({"knobs": knobs, "env": env}));
+        let _ = std::io::stdout().flush();
+    }
+    let mut tail: Vec<Op> = vec![];
+    let mut tail_built = false;
+    loop {
+        if i >= total && !tail_built {
+            tail_built = true;
+            if let Source::Gen { .. } = &src {
+                // every handle still open is dropped as an explicit, recorded, judged step
+                for (h, slot) in m.hs.iter().enumerate() {
+                    if slot.is_some() {
+                        tail.push(Op::HDrop { h });
+                    }
+                }
+                tail.reverse();
+            }
+        }
+        let op = if i < total {
+            let op = match &mut src {
+                Source::Gen { gen, rng, .. } => gen.next_op(&m, rng),
+                Source::Replay(o) => o[i].clone(),
+            };
+            op
+        } else {
+            match tail.pop() {
+                Some(op) => op,
+                None => break,
+            }
         };
         i += 1;
         let class = op_class(&m, &op);
@@ -495,6 +522,16 @@ pub fn run_seq(pc: &PropCfg, knobs: &Knobs, env: &Env, mut src: Source, stats: &
             }
         }
 
+        // C13: VfsEntry accessors against the wrapped entry value
+        if let Some(d) = exec::ENTRY_MISMATCH.with(|m| m.borrow_mut().take()) {
+            step_violations.push(Violation {
+                property: "C13".into(),
+                oracle: "entry-accessors".into(),
+                step,
+                sig: format!("wrapper-entry|{}", op.label()),
+                detail: format!("{:?}: {}", op, d.chars().take(500).collect::<String>()),
+            });
+        }
         // C13: the same step through the wrapper
         if let Some(w) = &wfs {
             let wout = exec::exec(w, &mut whs, &op);
@@ -607,10 +644,11 @@ pub fn run_seq(pc: &PropCfg, knobs: &Knobs, env: &Env, mut src: Source, stats: &
             break;
         }
     }
-    // end of run: drop handles (their write-back is part of the run), final cross-checks
-    hs.clear();
-    whs.clear();
-    chs.clear();
+    // end of run: drop handles that are still open (generated histories close theirs explicitly;
+    // a minimised case may not). A panic in here is reported by the explicit drop operations.
+    let _ = std::panic::catch_unwind(std::panic::AssertUnwindSafe(|| hs.clear()));
+    let _ = std::panic::catch_unwind(std::panic::AssertUnwindSafe(|| whs.clear()));
+    let _ = std::panic::catch_unwind(std::panic::AssertUnwindSafe(|| chs.clear()));
     if violations.is_empty() {
         let snap = fs.verif_snapshot();
         if !snap.poisoned {
